@@ -40,7 +40,7 @@ def _tagger_sections(ini):
     return res, c
 
 
-def scaled(ini, n_roots, seed=12345, horizon=25, start=None, extra=None, name=None):
+def scaled(ini, n_roots, seed=12345, horizon=25, start=None, extra=None, name=None, info=None):
     """The shipped wiring with n_roots root nodes and enough event handlers for every pair tagger."""
     secs, c = _tagger_sections(ini)
     ov = {}
@@ -52,7 +52,7 @@ def scaled(ini, n_roots, seed=12345, horizon=25, start=None, extra=None, name=No
             ov[(sec, "number_event_handlers")] = 4 * n_roots + 4
     ov.update(extra or {})
     return Spec(name or "%s*%d%s" % (short(ini), n_roots, "" if seed == 12345 else "@%d" % seed), ini, ov, start, seed,
-                horizon, tags=("scaled",))
+                horizon, tags=("scaled",), info=info)
 
 
 Q = "electric_charge"
@@ -124,6 +124,13 @@ def water_layer_start():
     side, 2 neighbour layers), the other oxygen three cells further: it is in the single non-nearby layer and becomes
     nearby when the active oxygen crosses the face."""
     return [water([1.662, 5.0, 5.0]), water([6.5, 5.2, 5.1], a=2.0)]
+
+
+def water_molecule_edge_start():
+    """Two water molecules: the *barycentre* of the first (the unit of the molecule cell system of the Coulomb family) is
+    2e-4 below the x-face of its cell, the second molecule three cells further, in the single non-nearby layer: when the
+    molecule crosses, the pair turns from a cell-veto target into a nearby pair."""
+    return [water([1.5631, 5.0, 5.0]), water([6.0, 5.2, 5.1], a=2.0)]
 
 
 def hard_disk_lattice(n_side=2, L=12.836):
@@ -214,6 +221,11 @@ def families(tier, horizon=25):
         scaled(J + "coulomb_atoms/cell_bounded.ini", 4, start=crowded_atoms_edge(), horizon=12,
                name="coulomb/cell_bounded+edge4"),
         scaled(J + "coulomb_atoms/power_bounded.ini", 3, horizon=horizon),
+        # "late in a very long run": every lazy-deletion counter of the heap scheduler a few trashes below 2^32
+        scaled(J + "coulomb_atoms/power_bounded.ini", 4, horizon=horizon, name="coulomb/power_bounded*4@2^32",
+               info={"preset_counters": 2 ** 32 - 4}),
+        Spec("dipoles/dipole_motion@2^32", J + "dipoles/dipole_motion.ini", horizon=horizon, tags=("shipped",),
+             info={"preset_counters": 2 ** 32 - 3}),
         scaled(J + "dipoles/cell_veto.ini", 4, start=crowded_dipoles(), horizon=horizon, name="dipoles/cell_veto+crowd4"),
         scaled(J + "dipoles/cell_bounded.ini", 4, start=crowded_dipoles(), horizon=horizon,
                name="dipoles/cell_bounded+crowd4"),
@@ -225,6 +237,8 @@ def families(tier, horizon=25):
         scaled(J + "water/coulomb_cell_veto_lj_cell_veto.ini", 3, horizon=horizon),
         scaled(J + "water/coulomb_cell_veto_lj_cell_veto.ini", 2, start=water_layer_start(), horizon=horizon,
                name="water/coulomb_cell_veto_lj_cell_veto+layer"),
+        scaled(J + "water/coulomb_cell_veto_lj_cell_veto.ini", 2, start=water_molecule_edge_start(), horizon=horizon,
+               name="water/coulomb_cell_veto_lj_cell_veto+medge"),
         scaled(J + "water/coulomb_power_bounded_lj_cell_bounded.ini", 3, horizon=horizon),
         scaled("hard_disk_dipoles/hard_disk_dipoles.ini", 4, start=hard_disk_lattice(2), horizon=horizon,
                name="hard_di/hard_disk_dipoles+lat4"),
@@ -281,4 +295,5 @@ def fast_variant(spec, default_summary):
         for opt in TIME_OPTIONS:
             if c.has_option(sec, opt):
                 ov[(sec, opt)] = repr(float(c.get(sec, opt)) * f)
-    return [Spec(spec.name + "~fast", spec.ini, ov, spec.start, spec.seed, spec.horizon, tags=spec.tags + ("fast",))]
+    return [Spec(spec.name + "~fast", spec.ini, ov, spec.start, spec.seed, spec.horizon, tags=spec.tags + ("fast",),
+                 info=spec.info)]
